@@ -139,6 +139,14 @@ func goid() string {
 	return ""
 }
 
+// Tier is 0 in the quick tier and 1 in the thorough tier.
+func Tier() int {
+	if os.Getenv("VERIF_TIERN") == "1" {
+		return 1
+	}
+	return 0
+}
+
 // ThreadID is 0 on the harness goroutine and k on the k-th goroutine started with Go.
 func ThreadID() int {
 	if v, ok := thrIDs.Load(goid()); ok {
